@@ -418,7 +418,7 @@ pub fn run_router(c: &RouterCase) -> CaseResult {
 
 pub fn variants(tier: Tier) -> Vec<(String, M, usize)> {
     vec![
-        ("learning_switch".to_string(), M { mode: Mode::Switch, tier, n: 3, plain: false, narrow: false }, tier.pick(3, 4)),
+        ("learning_switch".to_string(), M { mode: Mode::Switch, tier, n: 3, plain: false, narrow: false }, tier.pick(3, 5)),
         ("learning_switch_station".to_string(), M { mode: Mode::Switch, tier: Tier::Quick, n: 3, plain: false, narrow: true }, tier.pick(6, 10)),
         ("learning_hub".to_string(), M { mode: Mode::Hub, tier: Tier::Quick, n: 3, plain: false, narrow: false }, tier.pick(2, 3)),
         ("learning_switch_plain".to_string(), M { mode: Mode::Switch, tier: Tier::Quick, n: 3, plain: true, narrow: false }, tier.pick(2, 3)),
